@@ -70,26 +70,25 @@ void run(Ctx &ctx, const std::string &w)
         producerDone = true;
     };
     auto consumer = [&] {
-        int idlePolls = 0;
         for (long guard = 0; guard < 400000; ++guard) {
             Item it{0, 0};
             if (q->pop(it, &reader)) {
                 if (it.check != chk(it.id)) fail("queue:torn-item", "popped item " + std::to_string(it.id) + " has a bad checksum (read while being written)");
                 popped.push_back(it.id);
-                idlePolls = 0;
                 continue;
             }
-            // pop() said empty and blocked us: we are idle until a notification arrives
-            if (notificationsInFlight > 0 && idlePolls >= lazy) {
-                --notificationsInFlight;
-                reader.clearSignal(); // what the notification handler does before popping
-                idlePolls = 0;
-                continue;
+            // pop() said empty and blocked us: we SLEEP (no polling!) until a notification is delivered. Only a notification
+            // or nothing at all can follow; if the producer is done and nothing is in flight we sleep forever.
+            int idlePolls = 0;
+            for (;;) {
+                if (notificationsInFlight > 0 && idlePolls >= lazy) break;
+                if (producerDone && notificationsInFlight == 0) return; // asleep for good
+                ++idlePolls;
+                (void)idle.load(); // give others the CPU
+                if (++guard > 400000) { fail("queue:consumer-guard", "consumer wait guard exceeded"); return; }
             }
-            if (producerDone && notificationsInFlight == 0)
-                return; // nothing will ever wake us again
-            ++idlePolls;
-            (void)idle.load(); // asleep: give others the CPU
+            --notificationsInFlight;
+            reader.clearSignal(); // what the notification handler does before popping
         }
         fail("queue:consumer-guard", "consumer loop guard exceeded");
     };
